@@ -40,16 +40,16 @@ def escAttr (s : Str) : Str := s.flatMap (escChar true)
 /-- namespace declarations: `xmlns` and `xmlns:prefix` -/
 def isNsDecl (k : Str) : Bool := k = "xmlns".toList || "xmlns:".toList.isPrefixOf k
 
-/-- attributes as qxmpp writes them.  Ordinary attributes go through `writeAttribute` (escaped).
-Namespace declarations go through `writeDefaultNamespace` / `writeNamespace`, and Qt 5.15 writes the
-namespace URI VERBATIM, without any escaping (measured by harness/cxx/xmllayer.cpp: the model's bytes
-are compared with the real writer's).  For the constant `ns_*` URIs this makes no difference; for
-data-valued ones (`QXmppElement::toXml`, Jingle description/transport type) it is the markup
-injection recorded as finding `C01:markup-injection:xmlns`. -/
+/-- attributes as qxmpp writes them: every value escaped (`writeAttribute`).
+Namespace declarations with a DATA value are written with `writeAttribute("xmlns", …)` since the fix
+of finding `C01:markup-injection:xmlns` (repo commit 04d18dd).  Constant namespaces still go through
+`writeDefaultNamespace` / `writeNamespace`, which write the URI verbatim (Qt 5.15, measured by
+harness/cxx/xmllayer.cpp); for them verbatim = escaped, because no constant contains a character
+`escAttr` changes: `ns_constants_ok` (Qx/Props/C01Xml.lean) over the list regenerated from the source by
+translators/ns_constants.py, which also fails when any call passes something other than a constant. -/
 def renderAttrs : List (Str × Str) → Str
   | [] => []
-  | (k, v) :: rest =>
-    ' ' :: k ++ '=' :: '"' :: (if isNsDecl k then v else escAttr v) ++ '"' :: renderAttrs rest
+  | (k, v) :: rest => ' ' :: k ++ '=' :: '"' :: escAttr v ++ '"' :: renderAttrs rest
 
 mutual
   /-- the writer's output form: `<n a="v"/>` for childless elements, `<n a="v">…</n>` otherwise -/
